@@ -297,6 +297,8 @@ class JournalStorage(BaseStorage):
     def get_trial_id_from_study_id_trial_number(self, study_id: int, trial_number: int) -> int:
         with self._thread_lock:
             self._sync_with_backend()
+            if study_id not in self._replay_result._study_id_to_trial_ids:
+                raise KeyError(NOT_FOUND_MSG)
             if len(self._replay_result._study_id_to_trial_ids[study_id]) <= trial_number:
                 raise KeyError(
                     "No trial with trial number {} exists in study with study_id {}.".format(
@@ -428,7 +430,7 @@ class JournalStorageReplayResult:
         return list(self._studies.values())
 
     def get_trial(self, trial_id: int) -> FrozenTrial:
-        if trial_id not in self._trials:
+        if trial_id not in self._trial_id_to_study_id:
             raise KeyError(NOT_FOUND_MSG)
         return self._trials[trial_id]
 
@@ -496,6 +498,10 @@ class JournalStorageReplayResult:
         if self._study_exists(study_id, log):
             fs = self._studies.pop(study_id)
             assert fs._study_id == study_id
+            # The trials of the deleted study are gone as well. ``self._trials`` keeps their
+            # entries because new trial IDs are allocated as ``len(self._trials)``.
+            for trial_id in self._study_id_to_trial_ids.pop(study_id):
+                del self._trial_id_to_study_id[trial_id]
 
     def _apply_set_study_user_attr(self, log: dict[str, Any]) -> None:
         study_id = log["study_id"]
@@ -645,7 +651,7 @@ class JournalStorageReplayResult:
             self._trials[trial_id] = trial
 
     def _trial_exists_and_updatable(self, trial_id: int, log: dict[str, Any]) -> bool:
-        if trial_id not in self._trials:
+        if trial_id not in self._trial_id_to_study_id:
             if self._is_issued_by_this_worker(log):
                 raise KeyError(NOT_FOUND_MSG)
             return False
